@@ -1441,6 +1441,7 @@ fn run_c17(args: &Args) -> Report {
         // write the tree; the entry module of each package imports a sample of module names
         let mut file_of: BTreeMap<(String, String), PathBuf> = BTreeMap::new(); // (pkg, module) -> path
         let mut uses_of: BTreeMap<String, (PathBuf, String, Vec<(String, u32, u32)>)> = BTreeMap::new(); // pkg -> entry file, text, uses
+        let mut test_uses: Option<(PathBuf, String, Vec<(String, u32, u32)>)> = None; // the root's test/ module
         for p in &pkgs {
             std::fs::create_dir_all(p.dir.join("src")).unwrap();
             let mut toml = format!("name = \"{}\"\nversion = \"1.0.0\"\n\n[dependencies]\n", p.name);
@@ -1455,7 +1456,10 @@ fn run_c17(args: &Args) -> Report {
                 let path = p.dir.join(dirname).join(format!("{m}.gleam"));
                 std::fs::create_dir_all(path.parent().unwrap()).unwrap();
                 let is_entry = *m == format!("{}_entry", p.key.replace('@', "_at_"));
-                let imports: Vec<(String, String)> = if is_entry {
+                // the root's test/ module imports too: `<pkg>/test/a.gleam` is a module of its
+                // package like any other, also when it is the first document opened
+                let is_test_module = *dirname == "test";
+                let imports: Vec<(String, String)> = if is_entry || is_test_module {
                     let mut cands = all_modules.clone();
                     cr.shuffle(&mut cands);
                     let mut seen = BTreeSet::new();
@@ -1468,6 +1472,8 @@ fn run_c17(args: &Args) -> Report {
                 file_of.insert((p.key.clone(), m.clone()), path.clone());
                 if is_entry {
                     uses_of.insert(p.key.clone(), (path, text, uses));
+                } else if is_test_module {
+                    test_uses = Some((path, text, uses));
                 }
             }
         }
@@ -1480,8 +1486,8 @@ fn run_c17(args: &Args) -> Report {
         let mut s = match Server::spawn(&bin, &[], None) { Ok(s) => s, Err(_) => { rep.inconclusive += 1; continue; } };
         if s.initialize(Some(&file_uri(&root.display().to_string())), Duration::from_secs(20)).is_none() { rep.inconclusive += 1; continue; }
         // opening order
-        let order = cr.below(3);
-        let order_name = ["root-first", "dependency-first", "free-standing-first"][order];
+        let order = cr.below(4);
+        let order_name = ["root-first", "dependency-first", "free-standing-first", "test-module-first"][order];
         rep.see("opening_orders", order_name);
         let mut to_open: Vec<(PathBuf, String)> = Vec::new();
         for p in &pkgs {
@@ -1496,7 +1502,16 @@ fn run_c17(args: &Args) -> Report {
             }
         }
         let free_item = (free.clone(), std::fs::read_to_string(&free).unwrap());
+        if let Some((tp, tt, _)) = &test_uses {
+            // the test module is a document of the session too: first of all in one order, last otherwise
+            if order == 3 {
+                to_open.insert(0, (tp.clone(), tt.clone()));
+            } else {
+                to_open.push((tp.clone(), tt.clone()));
+            }
+        }
         match order {
+            3 => { to_open.push(free_item.clone()); }
             0 => { to_open.push(free_item.clone()); }
             1 => { to_open.reverse(); to_open.push(free_item.clone()); }
             _ => { to_open.insert(0, free_item.clone()); }
@@ -1508,11 +1523,19 @@ fn run_c17(args: &Args) -> Report {
         }
         // queries
         let mut died = false;
+        let mut importers: Vec<(&TPkg, &PathBuf, &Vec<(String, u32, u32)>)> = Vec::new();
         for p in &pkgs {
             if p.key.ends_with("@pathdep") {
                 continue;
             }
-            let Some((path, _text, uses)) = uses_of.get(&p.key) else { continue };
+            if let Some((path, _text, uses)) = uses_of.get(&p.key) {
+                importers.push((p, path, uses));
+            }
+        }
+        if let Some((tp, _tt, tu)) = &test_uses {
+            importers.push((&pkgs[0], tp, tu));
+        }
+        for (p, path, uses) in importers {
             let under_pathdep = p.key == "pathdep" || p.key.ends_with("@pathdep");
             let visible = sees_with(p, false);
             let visible_private = if under_pathdep { Some(sees_with(p, true)) } else { None };
